@@ -74,6 +74,7 @@ struct Snap {
 	std::vector<std::pair<unsigned, std::string>> pages;	// key pgno << 16 | subno  ->  serialized fetches
 	std::vector<EvRec> log;
 	std::map<unsigned, std::vector<int>> links;		// key -> page numbers of the six navigation links (FLOF, initial page) at Level 2.5
+	std::map<unsigned, std::vector<unsigned>> hdr;		// key -> the 40 characters of the header row at Level 1.5
 };
 
 static void ser_page(std::string &o, const vbi_page &pg) {
@@ -97,7 +98,7 @@ static void ser_page(std::string &o, const vbi_page &pg) {
 static void run_tx(const std::vector<Pkt> &tx, const std::vector<char> *drop, int fault_at, const uint8_t *fault_bytes, Snap &out,
 		   const std::vector<std::pair<int, const uint8_t *>> *multi = nullptr) {
 	vbi_decoder *dec = vbi_decoder_new();
-	out.pages.clear(); out.log.clear(); out.links.clear();
+	out.pages.clear(); out.log.clear(); out.links.clear(); out.hdr.clear();
 	g_log = &out.log;
 	vbi_event_handler_register(dec, VBI_EVENT_TTX_PAGE | VBI_EVENT_NETWORK | VBI_EVENT_NETWORK_ID | VBI_EVENT_LOCAL_TIME | VBI_EVENT_PROG_ID, on_event, nullptr);
 	double t = 1000.0;
@@ -120,7 +121,7 @@ static void run_tx(const std::vector<Pkt> &tx, const std::vector<char> *drop, in
 		std::string o;
 		for (int level : {VBI_WST_LEVEL_1p5, VBI_WST_LEVEL_2p5}) {
 			vbi_page pg; memset(&pg, 0, sizeof pg);
-			if (vbi_fetch_vt_page(dec, &pg, pgno[i], subno[i], (vbi_wst_level) level, 25, TRUE)) { ser_page(o, pg); if (level == VBI_WST_LEVEL_2p5) { auto &lv = out.links[(unsigned) pgno[i] << 16 | (unsigned) subno[i]]; for (int q = 0; q < 6; ++q) lv.push_back(pg.nav_link[q].pgno); } vbi_unref_page(&pg); }
+			if (vbi_fetch_vt_page(dec, &pg, pgno[i], subno[i], (vbi_wst_level) level, 25, TRUE)) { ser_page(o, pg); if (level == VBI_WST_LEVEL_1p5) { auto &hv = out.hdr[(unsigned) pgno[i] << 16 | (unsigned) subno[i]]; for (int q = 0; q < 40; ++q) hv.push_back(pg.text[q].unicode); } if (level == VBI_WST_LEVEL_2p5) { auto &lv = out.links[(unsigned) pgno[i] << 16 | (unsigned) subno[i]]; for (int q = 0; q < 6; ++q) lv.push_back(pg.nav_link[q].pgno); } vbi_unref_page(&pg); }
 			else o += "<fetch failed>";
 			o += "|L|";
 		}
@@ -652,6 +653,18 @@ int vf_run_case(Src &s, Report &r) {
 			if (got.pages[q].first != ref_lite.pages[q].first) return r.fail("C03:header-parity-error-changes-page-set", "parity error in header text byte %d: %s: %s", k, describe(i, fb).c_str(), first_page_diff(got, ref_lite).c_str());
 			unsigned key = got.pages[q].first; const PageDef &pd = pages[txv[i].pi];
 			bool own = key == (((((pd.mag << 8) | pd.page)) << 16) | (pd.sub & 0x3F7F));
+			if (own && got.hdr.count(key) && ref_lite.hdr.count(key)) {	// the damaged character is blanked or (retransmission) keeps its earlier content; never another character
+				const auto &gh = got.hdr[key], &rh = ref_lite.hdr[key]; int col = 8 + (k - 10);
+				// earlier content: the same column of this page's header in an earlier cycle
+				std::set<unsigned> okc; okc.insert(0x20); if (col < (int) rh.size()) okc.insert(rh[(size_t) col]);
+				for (size_t c = 8; c < gh.size() && c < rh.size(); ++c) {
+					if ((int) c == col ? !okc.count(gh[c]) : false) {
+						// (the clock digits differ from cycle to cycle: any digit the page ever carried there is earlier content)
+						bool earlier = false; for (int j = 0; j < n; ++j) if (txv[j].kind == K_HDR && txv[j].pi == txv[i].pi) { unsigned ch = txv[j].b[10 + (c - 8)] & 0x7F; if (gh[c] == ch) earlier = true; }
+						if (!earlier) return r.fail("C03:header-parity-error-shown-as-character", "parity error in header text byte %d: %s: the header of page %x.%x shows U+%04X in column %zu, transmitted U+%04X (a damaged character is blanked or keeps its earlier content)", k, describe(i, fb).c_str(), key >> 16, key & 0xFFFF, gh[c], c, rh[c]);
+					}
+				}
+			}
 			if (!own && got.pages[q].second != ref_lite.pages[q].second) return r.fail("C03:header-parity-error-changes-other-page", "parity error in header text byte %d: %s: %s", k, describe(i, fb).c_str(), first_page_diff(got, ref_lite).c_str());
 		}
 	}
